@@ -433,6 +433,7 @@ type RunOpts struct {
 	Env      []string
 	WallSec  int // whole-child wall limit per (re)start, default 600
 	MemLimit string
+	MaxDeaths int // stop after this many child deaths/timeouts (0 = 40); the remaining cases get no result
 }
 
 // Run executes the cases; the child is restarted after a case that kills it. The result for a
@@ -532,8 +533,12 @@ func (b *Batch) Run(cases []*mon.Case, ro RunOpts) (map[string]*mon.Result, erro
 			results[last] = &mon.Result{ID: last, Died: fmt.Sprintf("%v: %s", runErr, tail)}
 		}
 		remaining = remaining[idx+1:]
-		if round > 2000 {
-			return results, fmt.Errorf("too many child restarts")
+		md := ro.MaxDeaths
+		if md == 0 {
+			md = 40
+		}
+		if round >= md {
+			break // the rest is reported as not run (inconclusive) by the caller
 		}
 	}
 	return results, nil
